@@ -362,6 +362,8 @@ def mech(cfg):
         opts.append("iwc=" + iwc_label(cfg["iwc"]))
     if cfg.get("off_season"):
         opts.append("offseason")
+    if (cfg.get("crop_kw") or {}).get("harvest_date"):
+        opts.append("harvest=" + cfg["crop_kw"]["harvest_date"])
     irr = cfg.get("irr") or {"method": 0}
     return "%s|%s|irr=%d|%s" % (cfg["crop"], cfg["soil_label"], irr["method"],
                                 "+".join(opts) if opts else "plain")
@@ -479,6 +481,7 @@ def _monitor(cfg, prop, model, F, res, max_days):
     prev_cg = None
     prev_gs = False
     irr_sum = {}           # season -> sum IrrDay
+    last_inseason_row = {}  # season -> last row simulated as in-season
     harvested = []         # seasons whose harvest flag was observed
     touched = False
     nontriv = False
@@ -557,6 +560,7 @@ def _monitor(cfg, prop, model, F, res, max_days):
         dstr = str(date.date())
         if gs:
             irr_sum[season] = irr_sum.get(season, 0.0) + IrrDay
+            last_inseason_row[season] = tsc
         if TRACE.get("harvest_flag") and (season not in harvested) and season >= 0:
             harvested.append(season)
 
@@ -784,8 +788,12 @@ def _monitor(cfg, prop, model, F, res, max_days):
             if abs(float(row["Seasonal irrigation (mm)"]) - s_irr) > 1e-9 * (1 + abs(s_irr)):
                 F.add("C06.seasonal_irrigation_is_sum_of_daily",
                       "seasonal irrigation == sum of the daily irrigation column over the season",
-                      "season %d: summary %.6f, sum of IrrDay %.6f" % (k, row["Seasonal irrigation (mm)"], s_irr),
-                      float(row["Seasonal irrigation (mm)"]) - s_irr)
+                      "season %d: summary %.6f (written at step %d), sum of IrrDay %.6f, last in-season row of the season %d"
+                      % (k, row["Seasonal irrigation (mm)"], h, s_irr, last_inseason_row.get(k, -1)),
+                      float(row["Seasonal irrigation (mm)"]) - s_irr,
+                      tag=("in-season day simulated after the summary row (season ended by the harvest date, off-season "
+                           "simulated)|irr=%d" % int(ps.IrrMngt.irrigation_method))
+                      if (off and last_inseason_row.get(k, -1) > h) else None)
         nontriv = len(fs) > 0
     res["nontrivial"] = bool(nontriv)
 
@@ -1222,6 +1230,9 @@ def anchors(rng, wseed):
     add("Barley", "fc4dec", IRR_LEVELS[0], fld["plain"], "c7", "FC", {"kind": "tunis"}, False, 1, 0)
     add("SugarBeetGDD", "texture", IRR_LEVELS[12], fld["srinhb"], "vdeepshallow", "FC", syn("mixed"), True, 1, 30)
     add("AlfalfaGDD", "SiltLoam", IRR_LEVELS[2], fld["fallowbunds"], "none", "FC", syn("mixed"), True, 2, 25)
+    # season cut short by an explicit latest harvest date (before maturity), off-season simulated, daily irrigation
+    add("Maize", "Loam", IRR_LEVELS[11], fld["plain"], "none", "FC", {"kind": "champion"}, True, 2, 10)
+    A[-1]["crop_kw"] = {"harvest_date": "08/15"}
     return A
 
 
@@ -1276,8 +1287,14 @@ def lattice(prop, tier, seed):
         t_iwc = _balanced(rng, ["FC", "FC", "WP", ("Pct", 50)], nt)
         t_far = _balanced(rng, [30.0, 12.0, 8.0], nt)
         t_wx = _balanced(rng, WX_LEVELS, nt)
+        # two fixed twins: 4-decimal field capacity / texture-derived soil started at field capacity
+        for (tc, ts_, tf) in (("Wheat", "fc4dec", 30.0), ("Potato", "texture", 12.0)):
+            c = make_cfg(len(cfgs) + len(twins), tc, ts_, IRR_LEVELS[0], FIELD_LEVELS[0], "none", "FC",
+                         {"kind": "tunis"}, False, 1, 0, rng, wseed)
+            c["far_depth"] = tf
+            twins.append(c)
         for i in range(nt):
-            c = make_cfg(len(cfgs) + i, t_crop[i], t_soil[i], t_irr[i], FIELD_LEVELS[0], "none", t_iwc[i],
+            c = make_cfg(len(cfgs) + len(twins), t_crop[i], t_soil[i], t_irr[i], FIELD_LEVELS[0], "none", t_iwc[i],
                          t_wx[i], False, 1, 0, rng, wseed)
             c["far_depth"] = t_far[i]
             twins.append(c)
